@@ -111,6 +111,9 @@ class HashSeedEngine(Engine):
                               ("pipeline", float(cfg.get("pipeline_weight", 1.0)))])
         scenario = getattr(self, f"_gen_{kind}")(rng)
         scenario["kind"] = kind
+        if kind == "pipeline" and rng.random() < 0.25:
+            from sim.engines.write_faults import ENGINE as WRITE_FAULTS
+            scenario["sideload"] = WRITE_FAULTS._gen_sideload(rng, scenario["records"])  # pylint: disable=protected-access
         k = int(cfg.get("k", 8))
         scenario["salts"] = [0] + [rng.randrange(1, 1 << 30) for _ in range(k - 1)]
         return scenario
@@ -460,8 +463,22 @@ class HashSeedEngine(Engine):
                         if not any(all(other[key] == hit[key] for key in ("cds", "profile", "start", "end"))
                                    for other in pfam_hits):
                             pfam_hits.append(hit)
-        return {"records": records, "hits": hits, "domain_hits": {"nrpspksdomains.hmm": domain_hits, "ksdomains.hmm": subtype_hits,
-                                                                 "Pfam-A.hmm": pfam_hits},
+        # sideloaded annotations: from the command line (a subregion around named genes, or one explicit subregion)
+        sideload_cli: List[str] = []
+        plain = [gene for record in records for gene in record["genes"] if len(gene["parts"]) == 1]
+        if plain and rng.random() < 0.3:
+            markers = rng.sample(plain, min(len(plain), rng.randint(2, 4)))
+            sideload_cli += ["--sideload-by-cds", ",".join(gene["name"] for gene in markers),
+                             "--sideload-size-by-cds", str(rng.choice([0, 100, 300, 20000]))]
+        if plain and rng.random() < 0.15:
+            record = rng.choice(records)
+            own = [gene for gene in record["genes"] if len(gene["parts"]) == 1]
+            if own:
+                gene = rng.choice(own)["parts"][0]
+                sideload_cli += ["--sideload-simple", f"{record['id']}:{max(0, gene[0] - 50)}-{min(len(record['seq']), gene[1] + 50)}"]
+        return {"records": records, "hits": hits, "sideload_cli": sideload_cli,
+                "domain_hits": {"nrpspksdomains.hmm": domain_hits, "ksdomains.hmm": subtype_hits,
+                                "Pfam-A.hmm": pfam_hits},
                 "domain_lengths": lengths, "extra_args": extra}
 
     # ------------------------------------------------------------ children
